@@ -119,7 +119,12 @@ to its end, `next`, …  `skip` = `record_size` + `padding` still to be skipped 
 def iterLoop (cfg : ReadCfg) (want : Nat) : Nat → Bytes → Nat → List IterEntry → List IterEntry × IterEnd
   | 0, _, _, acc => (acc, .err)
   | f + 1, s, skip, acc =>
-    match readHeaderWith cfg (s.drop skip) with
+    -- iterator.c:184-194: `record_size`, then `padding` are skipped with `sqfs_istream_skip`, which fails when the input ends
+    -- first (two calls; the second is reached only if the first succeeded, so together: fewer than `skip` bytes left = error)
+    match istreamSkip s skip with
+    | none => (acc, .err)
+    | some s0 =>
+    match readHeaderWith cfg s0 with
     | .eof => (acc, .eof)
     | .err => (acc, .err)
     | .ok d s' =>
